@@ -314,6 +314,8 @@ class MHLHistory:
         """traverses the whole file system tree inside the history to find all sub histories"""
         history_root = self.get_root_path()
         for root, directories, _ in os.walk(history_root):
+            # visit the folders in a defined order so the result does not depend on how the OS lists them
+            directories.sort()
             if root != history_root and ascmhl_folder_name in directories:
                 # we parse the mhl folder and clear the directories so we are not going deeper
                 # everything beneath is handled by the child history
